@@ -27,7 +27,12 @@ Notation "'do' x <- r ;; k" := (bind r (fun x => k)) (at level 200, x name, r at
 (* ---- update_conf(def_cfg, user_cfg), faithfully: `config = deepcopy(def_cfg)` may be any
    value; it is only required to be a dict when the user mapping has at least one item
    (config.get -> AttributeError for a Mapping item, config[key] = ... -> TypeError otherwise).
-   Hence an EMPTY user mapping over a non-dict default returns the default. *)
+   A Mapping item is merged into config.get(key) when that is itself a Mapping and into {}
+   otherwise (no value, or a scalar / list / None default): the user's mapping then takes the
+   place of the default and the schema decides. *)
+Definition upd_base (ad : dict) (k : string) : jv :=
+  match lookup k ad with Some (JDict x) => JDict x | _ => JDict [] end.
+
 Fixpoint upd (dv : jv) (uv : jv) {struct uv} : res jv :=
   match uv with
   | JDict ud =>
@@ -39,7 +44,7 @@ Fixpoint upd (dv : jv) (uv : jv) {struct uv} : res jv :=
          | JDict _ =>
            match acc with
            | JDict ad =>
-             match upd (match lookup k ad with Some x => x | None => JDict [] end) v with
+             match upd (upd_base ad k) v with
              | Ok nv => go rest (JDict (set_key k nv ad))
              | Raise e => Raise e
              end
@@ -53,6 +58,36 @@ Fixpoint upd (dv : jv) (uv : jv) {struct uv} : res jv :=
          end
        end) ud dv
   | _ => Raise EAttribute       (* user_cfg.items() on a non-mapping *)
+  end.
+
+(* update_conf BEFORE the repair (`config[key] = update_conf(config.get(key, {}), value)` for
+   every Mapping item): an EMPTY user mapping over a non-dict default returned the default, a
+   non-empty one raised.  Kept for the regression example of Props/C17.v only. *)
+Fixpoint upd_before (dv : jv) (uv : jv) {struct uv} : res jv :=
+  match uv with
+  | JDict ud =>
+    (fix go (l : dict) (acc : jv) {struct l} : res jv :=
+       match l with
+       | [] => Ok acc
+       | (k, v) :: rest =>
+         match v with
+         | JDict _ =>
+           match acc with
+           | JDict ad =>
+             match upd_before (match lookup k ad with Some x => x | None => JDict [] end) v with
+             | Ok nv => go rest (JDict (set_key k nv ad))
+             | Raise e => Raise e
+             end
+           | _ => Raise EAttribute
+           end
+         | _ =>
+           match acc with
+           | JDict ad => go rest (JDict (set_key k (conv_special v) ad))
+           | _ => Raise EType
+           end
+         end
+       end) ud dv
+  | _ => Raise EAttribute
   end.
 
 (* v[k] for a string key *)
